@@ -180,7 +180,7 @@ def exec (st : State) (o : Opt) : Option State :=
     (match cur with
      | none => none
      | some c =>
-       if n + 1 < 0 then none
+       if n < 0 || n ≥ st.stack.length then none
        else (insertAt st.stack (n + 1).toNat c).map fun s => { st with stack := s.tail })
   | .unwind => (match st.stack with | [] => none | _ :: r => some { st with stack := r })
   | .json v => let (h1, x) := alloc h v; some { st with heap := h1, stack := x :: st.stack }
@@ -331,12 +331,14 @@ def run (ops : List Opt) : State × Outcome := runFrom {} false 0 ops
 
 /-! ### command line → options (what `jcmd_opt_parse` makes of the arguments) -/
 
-/-- `%u`: like `%zd` but the value is reduced to 32 bits (a minus sign wraps) -/
-def scanUInt (s : String) : Option Int := (scanInt s).map (fun i => i % 4294967296)
+/-- `opt_set_uint` (after fix F33): `%llu` without narrowing — a count that does not fit a `json_int_t` (a minus sign
+    wraps to one) stays larger than any stack or array -/
+def scanUInt (s : String) : Option Int :=
+  (scanInt s).map (fun i => if i < 0 || i > 9223372036854775807 then 9223372036854775807 else i)
 
-/-- `%d` for values that fit an `int` -/
+/-- `opt_set_int` (after fix F33): `%lld`, saturating -/
 def scanDInt (s : String) : Option Int :=
-  (scanInt s).bind fun i => if i < -2147483648 || i > 2147483647 then none else some i
+  (scanInt s).map fun i => if i < -9223372036854775808 then -9223372036854775808 else if i > 9223372036854775807 then 9223372036854775807 else i
 
 /-- `jcmd_opt_set_json`: JSON text (trailing garbage ignored), else "-" = standard input, else a file -/
 def loadJsonArg (arg : String) (stdin : String) (files : List (String × String)) : Option Json :=
